@@ -173,17 +173,29 @@ func drawAddrs(rt *rapid.T, pi int) []*addrSpec {
 		if a.dialled == nil {
 			a.dialled = a.stored
 		}
-		for r := 0; r < 2; r++ {
-			o := outcome{
-				O:     scripted.Outcome(rapid.SampledFrom([]int{0, 1, 1, 1, 2}).Draw(rt, "outcome")),
-				Delay: time.Duration(rapid.SampledFrom([]int{0, 5, 10, 20, 50, 100, 300, 600, 2000, 7000, 20000}).Draw(rt, "delay")) * time.Millisecond,
+		drawScripts := func(a *addrSpec) {
+			for r := 0; r < 2; r++ {
+				o := outcome{
+					O:     scripted.Outcome(rapid.SampledFrom([]int{0, 1, 1, 1, 2}).Draw(rt, "outcome")),
+					Delay: time.Duration(rapid.SampledFrom([]int{0, 5, 10, 20, 50, 100, 300, 600, 2000, 7000, 20000}).Draw(rt, "delay")) * time.Millisecond,
+				}
+				if a.fd && rapid.IntRange(0, 4).Draw(rt, "progress") == 0 {
+					o.Progress = true
+				}
+				a.script[r] = o
 			}
-			if a.fd && rapid.IntRange(0, 4).Draw(rt, "progress") == 0 {
-				o.Progress = true
-			}
-			a.script[r] = o
 		}
+		drawScripts(a)
 		out = append(out, a)
+		if a.kind == kDNS {
+			// a name with several records: every record is an address of its own (same stored form)
+			for x, extra := 1, rapid.SampledFrom([]int{0, 0, 1, 2}).Draw(rt, "dnsRecords"); x <= extra; x++ {
+				b := *a
+				b.dialled = mk(fmt.Sprintf("/ip4/3.%d.%d.%d/tcp/4001", pi, x, k+1))
+				drawScripts(&b)
+				out = append(out, &b)
+			}
+		}
 		if rapid.IntRange(0, 9).Draw(rt, "dup") == 0 {
 			d := *a
 			out = append(out, &d)
@@ -243,14 +255,14 @@ func drawScenario(rt *rapid.T) *scenario {
 
 // ---------------------------------------------------------------------------
 
-type resolver struct{ m map[string]ma.Multiaddr }
+type resolver struct{ m map[string][]ma.Multiaddr }
 
 func (r resolver) ResolveDNSAddr(context.Context, peer.ID, ma.Multiaddr, int, int) ([]ma.Multiaddr, error) {
 	return nil, errors.New("no dnsaddr")
 }
 func (r resolver) ResolveDNSComponent(_ context.Context, a ma.Multiaddr, _ int) ([]ma.Multiaddr, error) {
 	if x, ok := r.m[a.String()]; ok {
-		return []ma.Multiaddr{x}, nil
+		return append([]ma.Multiaddr(nil), x...), nil
 	}
 	return nil, errors.New("nxdomain")
 }
@@ -293,12 +305,18 @@ func runScenario(t *testing.T, rt *rapid.T, name string, sc *scenario) {
 		defer ps.Close()
 		round := 0
 		byDialled := map[string]*addrSpec{}
-		res := resolver{m: map[string]ma.Multiaddr{}}
+		res := resolver{m: map[string][]ma.Multiaddr{}}
 		for pi, as := range sc.addrs {
 			for _, a := range as {
 				byDialled[string(peerID(pi))+a.dialled.String()] = a
 				if a.kind == kDNS {
-					res.m[a.stored.String()] = a.dialled
+					dup := false
+					for _, x := range res.m[a.stored.String()] {
+						dup = dup || x.Equal(a.dialled)
+					}
+					if !dup {
+						res.m[a.stored.String()] = append(res.m[a.stored.String()], a.dialled)
+					}
 				}
 			}
 		}
